@@ -140,6 +140,31 @@ func c17GenNameFacts() (string, string) {
 		})
 	}
 	fmt.Fprintf(&b, "/-- withNamePrecedenceLoad: conditions tested in order before falling back to the directory name -/\ndef namePrecedence_conds : List String := [%s]\n\n", joinLean(conds))
+	// printed bodies (space-normalised, no comments) of the functions the model mirrors statement by statement
+	ldf := parse("loader/loader.go")
+	for _, e := range []struct{ name, body string }{
+		{"c17_body_NewProjectOptions", funcBody(of, "", "NewProjectOptions")},
+		{"c17_body_WithName", funcBody(of, "", "WithName")},
+		{"c17_body_WithWorkingDirectory", funcBody(of, "", "WithWorkingDirectory")},
+		{"c17_body_WithConfigFileEnv", funcBody(of, "", "WithConfigFileEnv")},
+		{"c17_body_WithDefaultConfigPath", funcBody(of, "", "WithDefaultConfigPath")},
+		{"c17_body_WithEnv", funcBody(of, "", "WithEnv")},
+		{"c17_body_WithOsEnv", funcBody(of, "", "WithOsEnv")},
+		{"c17_body_WithEnvFiles", funcBody(of, "", "WithEnvFiles")},
+		{"c17_body_WithDotEnv", funcBody(of, "", "WithDotEnv")},
+		{"c17_body_GetWorkingDir", funcBody(of, "ProjectOptions", "GetWorkingDir")},
+		{"c17_body_withNamePrecedenceLoad", funcBody(of, "", "withNamePrecedenceLoad")},
+		{"c17_body_findFiles", funcBody(of, "", "findFiles")},
+		{"c17_body_absolutePaths", funcBody(of, "", "absolutePaths")},
+		{"c17_body_projectName", funcBody(ldf, "", "projectName")},
+		{"c17_body_NormalizeProjectName", funcBody(ldf, "", "NormalizeProjectName")},
+		{"c17_body_GetEnvFromFile", funcBody(parse("dotenv/env.go"), "", "GetEnvFromFile")},
+		{"c17_body_MappingMerge", funcBody(parse("types/mapping.go"), "Mapping", "Merge")},
+		{"c17_body_GetAsEqualsMap", funcBody(parse("utils/stringutils.go"), "", "GetAsEqualsMap")},
+	} {
+		fmt.Fprintf(&b, "def %s : String := %s\n", e.name, leanStr(e.body))
+	}
+	b.WriteString("\n")
 	fmt.Fprintf(logw, "name facts: regex %q cutset %q calls %d conds %d\n", regex, cutset, len(calls), len(conds))
 	b.WriteString("end CV.Gen\n")
 	return "NameFacts.lean", b.String()
